@@ -467,11 +467,18 @@ def t_container_transform(eng):
     try:
         eng.call_qual(Q, args)
     except PyRaise as ex:
+        if ex.cls == 'ValueError':
+            # since d578725 a scale factor that is not positive is rejected before anything is recorded or scaled
+            eng.oblige(n + nm + '/only-a-scale-factor-that-is-not-positive-is-a-ValueError',
+                       z3.And(z3.BoolVal(which == 1 and not calls), term(fac, True) <= 0))
+            return
         eng.oblige(n + nm + '/unknown-tag-is-a-KeyError',
                    z3.And(z3.BoolVal(tagged and ex.cls == 'KeyError'),
                           z3.Not(eng.dict_has(by_tag, term(tag))) if tagged else z3.BoolVal(False)))
         return
     eng.cover('container-%s-%d' % (nm, tagged))
+    if which == 1:
+        eng.oblige(n + nm + '/an-accepted-scale-factor-is-positive', r_cmp('>', fac, 0))
     if tagged:
         tgt = eng.dict_get(by_tag, term(tag))
         eng.oblige(n + nm + '/tagged/only-the-tagged-object-is-transformed',
